@@ -12,4 +12,5 @@ INVARIANT SetConfigRunEquals
 PROPERTY ResultsImmutable
 PROPERTY CallerUntouched
 PROPERTY RefusedMeansNoConfig
+PROPERTY BadCallRefused
 CHECK_DEADLOCK FALSE
